@@ -604,6 +604,18 @@ pub fn run(_params: &Params) {
           }
         }
       }
+      // the same entry with its index written as a JSON number instead of a string (another producer): the same entry
+      if !malformed_entry && ctx::choose(8) == 0 {
+        let mut cj = serde_json::to_value(&cred).unwrap();
+        let n = cj.get("credentialStatus").and_then(|s| s.get("statusListIndex")).and_then(|i| i.as_str()).and_then(|i| i.parse::<u64>().ok());
+        if let (Some(n), Some(st)) = (n, cj.get_mut("credentialStatus").and_then(|s| s.as_object_mut())) {
+          st.insert("statusListIndex".into(), serde_json::Value::from(n));
+          if let Ok(c2) = Credential::<Object>::from_json_value(cj) {
+            cred = c2;
+            ctx::stat("probe.status_index_as_json_number");
+          }
+        }
+      }
       let r = ctx::catch(|| JwtCredentialValidatorUtils::check_status_with_status_list_2021(&cred, &list_cred, mode));
       let r = match r {
         Ok(r) => r,
